@@ -311,7 +311,11 @@ func VerifRunCluster(cs VerifClusterCase, hook VerifResHook) (res map[string]any
 			bsz := etcd.VBatch(0) // ONE response for the whole batch
 			etcd.VResume()
 			etcd.VBatch(bsz)
-			for !firedRegen {
+			regenDeadline := time.Now().Add(3 * time.Second) // the watcher may have no stream at all: never wait for ever
+			if everStuck {
+				regenDeadline = time.Now().Add(300 * time.Millisecond)
+			}
+			for !firedRegen && time.Now().Before(regenDeadline) {
 				select {
 				case <-started:
 					<-finished
